@@ -131,6 +131,17 @@ declared local of type `Py.Err` and receives the exception.  Not combined with `
 
 `bool(e)` is the truth value of `e` (as in a condition).
 
+Pairs and optional strings (added for `FllImporter`):
+
+* a tuple of two expressions `(a, b)` is the Lean pair `(a, b) : A × B` (evaluated left to right); `p[0]` / `p[1]` on an
+  expression of a pair type are the projections; `a, b = e` where `e` has a pair type (a call of a function that
+  returns a tuple) evaluates `e` once and assigns the components (`_` as a target discards its component);
+* `==` / `!=` between a `String` and an `Option String` compare as optionals (`"x" == None` is `False`), like the
+  numbers above; a conditional expression with one branch `None` has the optional type of the other branch;
+* `return e` in a function whose declared result type `ret` is itself `Option T` (the Python function returns an object
+  or `None`) stores `some e'` with `e' : Option T` (`return None` stores `some none`, so that "returned None" and
+  "did not return" differ).
+
 Anything outside the subset raises `Untranslatable` - the tie is then reported as broken (never silently skipped).
 """
 from __future__ import annotations
@@ -173,6 +184,23 @@ def elem_type(t):
     if e.startswith("(") and e.endswith(")"):
         e = e[1:-1]
     return e
+
+
+def pair_types(t):
+    """(A, B) when `t` is the product type `A × B` (split at the top level), else None"""
+    d, cuts = 0, []
+    for i, ch in enumerate(t):
+        if ch in "([":
+            d += 1
+        elif ch in ")]":
+            d -= 1
+        elif ch == "×" and d == 0:
+            cuts.append(i)
+    if len(cuts) != 1 or "→" in t:
+        return None
+    a, b = t[:cuts[0]].strip(), t[cuts[0] + 1:].strip()
+    unp = lambda x: x[1:-1] if x.startswith("(") and x.endswith(")") and balanced(x[1:-1]) else x
+    return unp(a), unp(b)
 
 
 def paren(s):
@@ -611,8 +639,8 @@ class Fn:
                     raise Untranslatable(f"'is' other than `<optional> is None`: {ast.unparse(node)}")
                 return self.bind1(l, lambda x: (f"({x}).isNone" if isinstance(node.ops[0], ast.Is) else f"({x}).isSome"), "Bool")
             op, l, r = node.ops[0], self.ce(node.left), self.ce(node.comparators[0])
-            optn = ("Option Int", "Option Nat")
-            if isinstance(op, (ast.Eq, ast.NotEq)) and (l.ty in optn) != (r.ty in optn) and (l.ty in ("Nat", "Int") or r.ty in ("Nat", "Int")):
+            optn = ("Option Int", "Option Nat", "Option String")
+            if isinstance(op, (ast.Eq, ast.NotEq)) and (l.ty in optn) != (r.ty in optn) and (l.ty in ("Nat", "Int", "String") or r.ty in ("Nat", "Int", "String")):
                 # `None == 0` is False (no exception): compare as optionals
                 o, n = (l, r) if l.ty in optn else (r, l)
                 n = self.toInt(n) if o.ty == "Option Int" else n
@@ -681,6 +709,13 @@ class Fn:
             c, a, b = self.truthy(self.ce(node.test)), self.ce(node.body), self.ce(node.orelse)
             if a.ty != b.ty and a.ty in ("Nat", "Int") and b.ty in ("Nat", "Int"):
                 a, b = self.toInt(a), self.toInt(b)
+            if b.ty == "Option _" and not a.ty.startswith("Option"):
+                # `x if c else None`: an optional
+                oty = f"Option {paren(a.ty)}"
+                a, b = self.bind1(a, lambda x: f"(some {x})", oty), E(f"(none : {oty})", oty)
+            elif a.ty == "Option _" and not b.ty.startswith("Option"):
+                oty = f"Option {paren(b.ty)}"
+                a, b = E(f"(none : {oty})", oty), self.bind1(b, lambda x: f"(some {x})", oty)
             if a.ty != b.ty:
                 raise Untranslatable("conditional expression with different types")
             if c.pure and a.pure and b.pure:
@@ -689,9 +724,16 @@ class Fn:
         if isinstance(node, ast.Attribute) and isinstance(node.value, ast.Name) and node.value.id in self.alias:
             fld, fty = self.alias_field(node.value.id, node.attr)
             return E(f"({self.alias_get(node.value.id)} >>= fun o => .ok o.{fld})", fty, False)
+        if isinstance(node, ast.Tuple) and len(node.elts) == 2:
+            a, b = self.ce(node.elts[0]), self.ce(node.elts[1])
+            if "_" in a.ty or "_" in b.ty:
+                raise Untranslatable(f"tuple with a component of unknown type: {ast.unparse(node)}")
+            return self.bind2(a, b, lambda x, y: f"({x}, {y})", f"{paren(a.ty) if pair_types(a.ty) or '→' in a.ty else a.ty} × {paren(b.ty) if pair_types(b.ty) or '→' in b.ty else b.ty}")
         if isinstance(node, ast.Subscript):
             base = self.ce(node.value)
             idx = node.slice
+            if pair_types(base.ty) and isinstance(idx, ast.Constant) and idx.value in (0, 1) and not isinstance(idx.value, bool):
+                return self.bind1(base, lambda x: f"({x}).{idx.value + 1}", pair_types(base.ty)[idx.value])
             if isinstance(idx, ast.UnaryOp) and isinstance(idx.op, ast.USub) and isinstance(idx.operand, ast.Constant) and idx.operand.value == 1:
                 if base.ty.startswith("Stack "):
                     return self.bind1(base, lambda x: f"(Py.top {x})", elem_type(base.ty), partial=True)
@@ -920,6 +962,24 @@ class Fn:
             if len(s.targets) != 1:
                 raise Untranslatable("multiple assignment targets")
             t = s.targets[0]
+            if (isinstance(t, ast.Tuple) and len(t.elts) == 2 and not isinstance(s.value, ast.Tuple)
+                    and all(isinstance(e, ast.Name) and (e.id in self.locals or e.id == "_") for e in t.elts)
+                    and any(e.id != "_" for e in t.elts) and len({e.id for e in t.elts}) == 2):
+                # `a, b = e` for an expression of a pair type: `e` is evaluated once, then the components are assigned
+                e = self.ce(s.value)
+                pt = pair_types(e.ty)
+                if pt is None:
+                    raise Untranslatable(f"tuple assignment of a value of type {e.ty}: {ast.unparse(s)}")
+                sets = []
+                for i, (tg, ty) in enumerate(zip(t.elts, pt)):
+                    if tg.id == "_":
+                        continue
+                    if self.locals[tg.id] != ty or self.alias_of_list(tg.id) or tg.id in self.alias:
+                        raise Untranslatable(f"'{tg.id}' has type {self.locals[tg.id]}, assigned {ty}")
+                    sets.append(f"{tg.id} := v.{i + 1}")
+                if e.pure:
+                    return f"let v := {e.term}\nlet σ := {{ σ with {', '.join(sets)} }}\n{after()}"
+                return f"{e.term} >>= fun v =>\nlet σ := {{ σ with {', '.join(sets)} }}\n{after()}"
             if isinstance(t, ast.Tuple) and all(isinstance(e, ast.Name) and e.id in self.locals for e in t.elts):
                 # targets are mutable locals: a sequence of ordinary assignments
                 v = s.value
@@ -1049,6 +1109,16 @@ class Fn:
             if s.value is None:
                 return ".ok σ"
             e = self.ce(s.value)
+            if self.ret_ty and self.ret_ty.startswith("Option "):
+                # the function returns an object or None: ret = some (the optional)
+                inner = self.ret_ty[len("Option "):]
+                if e.ty == "Option _":
+                    e = E(f"(none : {self.ret_ty})", self.ret_ty)
+                elif e.ty in (inner, inner[1:-1] if inner.startswith("(") else inner):
+                    e = self.bind1(e, lambda x: f"(some {x})", self.ret_ty)
+                if e.ty != self.ret_ty:
+                    raise Untranslatable(f"return of {e.ty} in a function declared to return {self.ret_ty}")
+                e = self.bind1(e, lambda x: f"(some {x})", f"Option {paren(self.ret_ty)}")
             return self.set_field("ret", e, "Except.ok")
         if isinstance(s, ast.If) and isinstance(s.test, ast.NamedExpr) and isinstance(s.test.target, ast.Name):
             # `if x := e:` is `x = e; if x:`
